@@ -534,7 +534,14 @@ class ReadBucketProxy:
                 # 2000 or more must be corrupted.
                 raise RidiculouslyLargeURIExtensionBlock(length)
 
-            return self._read(offset+self._fieldsize, length)
+            d2 = self._read(offset+self._fieldsize, length)
+            def _got_ueb(ueb_data):
+                if len(ueb_data) != length:
+                    # the length field promises more than the share holds
+                    raise LayoutInvalid("URI extension block should be %d bytes long, not %d" % (length, len(ueb_data)))
+                return ueb_data
+            d2.addCallback(_got_ueb)
+            return d2
         d.addCallback(_got_length)
         return d
 
